@@ -106,6 +106,10 @@ def item_selector_text(it, cfg):
         # prefixed names glued to an operator (no blank, brace or parenthesis before the prefix): an inverse path, a FILTER
         pfx_p = _prefixed(it["pp"], cfg["nsDict"])
         pfx_o = _prefixed(it["po"][1], cfg["nsDict"]) if it["po"][0] == "IRI" else None
+        # (in a SPARQL query the local part of a prefixed name has escaping rules of its own: plain local names only)
+        import re as _re
+        pfx_p = pfx_p if pfx_p and _re.match(r"^[A-Za-z-]*:[A-Za-z][A-Za-z0-9_]*$", pfx_p) else None
+        pfx_o = pfx_o if pfx_o and _re.match(r"^[A-Za-z-]*:[A-Za-z][A-Za-z0-9_]*$", pfx_o) else None
         if lay == "invpath" and pfx_p and it["ps"][0] == "FOCUS" and it["po"][0] == "IRI":
             return "SPARQL \"select ?x where { <%s> ^%s ?x }\"" % (it["po"][1], pfx_p)
         if lay == "filter" and pfx_o and it["ps"][0] == "FOCUS":
